@@ -141,10 +141,87 @@ func hasBoundLeaf(t *Term) bool {
 }
 
 // unfoldings: ground unfolding instances (fuel 2) of recursive specs.
+// Applications that mention bound variables (inside quantified hypotheses)
+// cannot be unfolded as they stand; they are instantiated with the skolem
+// constants of the goal (the values the goal is about), which gives the
+// solver the definitional instances it needs to use such a hypothesis.
 func (x *Exec) unfoldings(terms []*Term, rec map[string]bool, fuel int) []*Term {
 	var out []*Term
 	seen := map[string]bool{}
-	frontier := terms
+	// skolem constants by sort
+	sk := map[Sort][]*Term{}
+	skSeen := map[string]bool{}
+	for _, t := range terms {
+		t.walk(func(s *Term) {
+			if len(s.Args) == 0 && strings.HasPrefix(s.Op, "sk_") && !skSeen[s.Op] {
+				skSeen[s.Op] = true
+				sk[s.Sort] = append(sk[s.Sort], s)
+			}
+		})
+	}
+	var extra []*Term
+	if len(skSeen) > 0 {
+		openSeen := map[string]bool{}
+		var walkQ func(t *Term, bound map[string]Sort)
+		walkQ = func(t *Term, bound map[string]Sort) {
+			if len(t.Bound) > 0 {
+				nb := map[string]Sort{}
+				for k, v := range bound {
+					nb[k] = v
+				}
+				for _, bv := range t.Bound {
+					nb[bv.Name] = bv.Sort
+				}
+				bound = nb
+			}
+			if strings.HasPrefix(t.Op, "spec_") && len(t.Args) > 0 && rec[t.Op[len("spec_"):]] && len(bound) > 0 {
+				// bound leaves used by this application
+				used := map[string]Sort{}
+				t.walk(func(s *Term) {
+					if len(s.Args) == 0 {
+						if so, ok := bound[s.Op]; ok {
+							used[s.Op] = so
+						}
+					}
+				})
+				if n := len(used); n >= 1 && n <= 2 && !openSeen[t.String()] {
+					openSeen[t.String()] = true
+					names := sortedKeys(used)
+					var rec2 func(i int, m map[string]*Term)
+					rec2 = func(i int, m map[string]*Term) {
+						if len(extra) > 48 {
+							return
+						}
+						if i == len(names) {
+							extra = append(extra, substTerm(t, m))
+							return
+						}
+						for _, c := range sk[used[names[i]]] {
+							// same contract variable name (x?12 ~ sk_x!3): the goal
+							// is normally the hypothesis re-proved for a later state
+							if hintOf(c.Op) != hintOf(names[i]) {
+								continue
+							}
+							m2 := map[string]*Term{}
+							for k, v := range m {
+								m2[k] = v
+							}
+							m2[names[i]] = c
+							rec2(i+1, m2)
+						}
+					}
+					rec2(0, map[string]*Term{})
+				}
+			}
+			for _, a := range t.Args {
+				walkQ(a, bound)
+			}
+		}
+		for _, t := range terms {
+			walkQ(t, map[string]Sort{})
+		}
+	}
+	frontier := append(append([]*Term(nil), terms...), extra...)
 	for round := 0; round < fuel; round++ {
 		var next []*Term
 		for _, t := range frontier {
@@ -607,10 +684,11 @@ func getModel(o *Obligation, workdir string, idx int, sec int) string {
 	return ""
 }
 
+var noRetry = map[string]bool{}
+
 func solveAll(obls []*Obligation, workdir string, quickSec, slowSec int, thorough bool, jobs int) []SolveResult {
 	res := make([]SolveResult, len(obls))
 	var wg sync.WaitGroup
-	sem := make(chan struct{}, jobs)
 	// scripts are rendered sequentially (the Exec is not thread-safe); the
 	// solvers run in parallel.
 	scripts := make([]string, len(obls))
@@ -629,21 +707,53 @@ func solveAll(obls []*Obligation, workdir string, quickSec, slowSec int, thoroug
 	if os.Getenv("GOWP_TIMING") != "" {
 		fmt.Fprintf(os.Stderr, "gowp: rendering took %.1fs\n", time.Since(tr).Seconds())
 	}
-	for i := range obls {
-		i := i
-		wg.Add(1)
-		sem <- struct{}{}
-		go func() {
-			defer wg.Done()
-			defer func() { <-sem }()
-			t1 := time.Now()
-			res[i] = solveScript(obls[i], scripts[i], pure[i], workdir, i, quickSec, slowSec, thorough)
-			if w := time.Since(t1).Seconds(); w > 2 && os.Getenv("GOWP_TIMING") != "" {
-				fmt.Fprintf(os.Stderr, "gowp: slow %s wall %.1fs status %s tried %v\n", obls[i].Name, w, res[i].Status, res[i].Tried)
-			}
-		}()
+	run := func(idx []int, jobs, qs, ss int) {
+		sem := make(chan struct{}, jobs)
+		for _, i := range idx {
+			i := i
+			wg.Add(1)
+			sem <- struct{}{}
+			go func() {
+				defer wg.Done()
+				defer func() { <-sem }()
+				t1 := time.Now()
+				res[i] = solveScript(obls[i], scripts[i], pure[i], workdir, i, qs, ss, thorough)
+				if w := time.Since(t1).Seconds(); w > 2 && os.Getenv("GOWP_TIMING") != "" {
+					fmt.Fprintf(os.Stderr, "gowp: slow %s wall %.1fs status %s tried %v\n", obls[i].Name, w, res[i].Status, res[i].Tried)
+				}
+			}()
+		}
+		wg.Wait()
 	}
-	wg.Wait()
+	// Pass 1: everything, wide, with a short limit (each obligation races
+	// up to five solver processes, so 16 jobs oversubscribe the machine
+	// when many obligations are hard). Pass 2: what is still undecided,
+	// few at a time, with the full limit - so that a timeout reflects the
+	// difficulty of the obligation and not the load.
+	all := make([]int, len(obls))
+	for i := range obls {
+		all[i] = i
+	}
+	short := 3
+	if quickSec < short {
+		short = quickSec
+	}
+	if thorough {
+		run(all, jobs, quickSec, slowSec)
+	} else {
+		run(all, jobs, short, short)
+		var again []int
+		for i, r := range res {
+			if !obls[i].ExpectSat && !noRetry[obls[i].Name] && (r.Status == "timeout" || r.Status == "unknown" || r.Status == "error") {
+				again = append(again, i)
+			}
+		}
+		if len(again) > 0 {
+			// generous limit: only the few hard obligations get here, and
+			// a timeout on an unchanged tree would be a false alarm
+			run(again, 4, 3*quickSec, 3*slowSec)
+		}
+	}
 	return res
 }
 
@@ -735,4 +845,14 @@ func solveScript(o *Obligation, script, purified, workdir string, idx, quickSec,
 		res.Status = "unknown"
 	}
 	return res
+}
+
+// hintOf: the contract-level variable name behind a bound variable
+// (x?12) or a skolem constant (sk_x!3).
+func hintOf(n string) string {
+	n = strings.TrimPrefix(n, "sk_")
+	if k := strings.IndexAny(n, "?!"); k >= 0 {
+		n = n[:k]
+	}
+	return n
 }
